@@ -365,6 +365,18 @@ harness!(fast_f32_n2_p3_anyinput, unwind = 6, |s| {
     vcover!(probs[1].is_infinite());
 });
 
+// witness carrier for the recorded known finding (negative entries are accepted): same body, no restriction
+harness!(fast_f32_n2_p3_unrestricted, unwind = 6, |s| {
+    let probs: [f32; 2] = [s.f32(), s.f32()];
+    let q = s.u8();
+    let big = s.usize();
+    let r = ContiguousCategoricalEntropyModel::<u8, Vec<u8>, 3>::from_floating_point_probabilities_fast(&probs, None);
+    if let Ok(m) = r {
+        check_valid::<_, 3>(&m, 2, q, big);
+        core::mem::forget(m);
+    }
+});
+
 // lazy versus eager construction by the same-named constructor (C05)
 harness!(lazy_vs_eager_f32_n3_p4, unwind = 7, |s| {
     let probs: [f32; 3] = [s.f32(), s.f32(), s.f32()];
@@ -503,6 +515,7 @@ impl Distribution for TableDistI16 {
 }
 
 dispatch!(
+    fast_f32_n2_p3_unrestricted,
     quantizer_wide_symbol_none,
     lazy_f32_n3_p4_valid,
     fixed_contiguous_p8, fixed_contiguous_p4, fixed_contiguous_quantile_p8, fixed_contiguous_quantile_p4, fixed_infer_complete_p8, fixed_infer_complete_p4,
